@@ -29,6 +29,7 @@ Inductive binop := Add | Sub | Mul | Div | Shl | Shr | BAnd | BOr | BXor | Lt | 
 
 Inductive expr :=
 | EConst (z : Z)
+| ENull                                (* a null pointer constant *)
 | EVar (x : string)
 | EDeref (p : expr)
 | EBin (op : binop) (a b : expr)
@@ -49,6 +50,13 @@ Inductive expr :=
 | ELoadInt32 (p idx : expr)            (* ((int* )p)[idx]: the int stored little-endian in the four bytes at p + 4*idx of the caller's buffer *)
 | EWriteBuf (p n : expr)               (* fwrite(p, 1, n, f): the n bytes at p of the caller's buffer; the number of bytes the stream took *)
 | EMemcmp (p q n : expr)               (* memcmp(p, q, n) on the caller's buffer: -1 / 0 / 1 by the first differing (unsigned) byte; libc promises only the sign *)
+| EMalloc (n : expr)                   (* malloc(n): a fresh block of n bytes of unspecified content at the end of the caller's memory, or NULL when the oracle "$fail" says so *)
+| EFree (p : expr)                     (* free(p): accepted for NULL and for pointers into the caller's memory; release itself is the ledger model's business (Mem.v) *)
+| EStoreInt32 (p e : expr)             (* *(int* )p = e: four bytes, little-endian *)
+| EMemcpy (d s n : expr)               (* memcpy(d, s, n) inside the caller's memory, the two areas disjoint *)
+| EStrlen (p : expr)                   (* strlen(p): bytes up to the first NUL; a fault if there is none before the end of the memory *)
+| EPostAdd (x : string) (k : Z)        (* p++ / p-- on a pointer to elements of |k| bytes: the old value, x moved by k *)
+| EPreAdd (x : string) (k : Z)
 | ESeekCur (e : expr)                  (* fseek(f, e, SEEK_CUR) with e >= 0 on a regular file: the position moves on (also beyond the end), 0 *)
 | EPtrAdd (p e : expr)                 (* p + e on a char pointer *)
 | EPostDec (x : string)
@@ -215,6 +223,21 @@ Definition ptr_add (p : val) (z : Z) (s : state) : option val :=
   | _ => None
   end.
 
+Definition fail_var : string := "$fail".
+Definition junk : Z := 205.
+
+Fixpoint upd_range (i : nat) (xs : list Z) (l : list Z) : list Z :=
+  match xs with
+  | [] => l
+  | x :: r => upd_range (S i) r (upd_nth i x l)
+  end.
+
+Fixpoint strlen_l (l : list Z) : option Z :=
+  match l with
+  | [] => None
+  | b :: r => if b =? 0 then Some 0 else match strlen_l r with Some n => Some (1 + n) | None => None end
+  end.
+
 Fixpoint memcmp_l (a b : list Z) : Z :=
   match a, b with
   | x :: a', y :: b' => if x <? y then -1 else if y <? x then 1 else memcmp_l a' b'
@@ -224,6 +247,7 @@ Fixpoint memcmp_l (a b : list Z) : Z :=
 Fixpoint eval (e : expr) (s : state) : option (val * state) :=
   match e with
   | EConst z => match chk z with Some v => Some (v, s) | None => None end
+  | ENull => Some (VNull, s)
   | EVar x => match lookup x (vars s) with Some VUndef => None | Some v => Some (v, s) | None => None end
   | EDeref p =>
     match eval p s with
@@ -397,6 +421,85 @@ Fixpoint eval (e : expr) (s : state) : option (val * state) :=
         end
       | _ => None
       end
+    | _ => None
+    end
+  | EMalloc a =>
+    match eval a s with
+    | Some (VInt n, s1) =>
+      if 0 <=? n then
+        let ok := Some (VPtr RIn (Z.of_nat (List.length (inb s1))),
+                        {| vars := vars s1; inb := inb s1 ++ repeat junk (Z.to_nat n); outb := outb s1 |}) in
+        match lookup fail_var (vars s1) with
+        | Some (VInt k) =>
+          if k =? 0 then match set_var fail_var (VInt (-1)) s1 with Some s2 => Some (VNull, s2) | None => None end
+          else if 0 <? k then
+            match set_var fail_var (VInt (k - 1)) {| vars := vars s1; inb := inb s1 ++ repeat junk (Z.to_nat n); outb := outb s1 |} with
+            | Some s2 => Some (VPtr RIn (Z.of_nat (List.length (inb s1))), s2) | None => None end
+          else ok
+        | Some _ => None
+        | None => ok
+        end
+      else None
+    | _ => None
+    end
+  | EFree a =>
+    match eval a s with
+    | Some (VNull, s1) => Some (VInt 0, s1)
+    | Some (VPtr RIn o, s1) => if (0 <=? o) && (o <=? Z.of_nat (List.length (inb s1))) then Some (VInt 0, s1) else None
+    | _ => None
+    end
+  | EStoreInt32 p a =>
+    match eval p s with
+    | Some (VPtr RIn o, s1) =>
+      match eval a s1 with
+      | Some (VInt z, s2) =>
+        if (0 <=? o) && (o + 4 <=? Z.of_nat (List.length (inb s2))) then
+          let u := z mod u32 in
+          Some (VInt z, {| vars := vars s2; inb := upd_range (Z.to_nat o) [u mod 256; (u / 256) mod 256; (u / 65536) mod 256; (u / 16777216) mod 256] (inb s2); outb := outb s2 |})
+        else None
+      | _ => None
+      end
+    | _ => None
+    end
+  | EMemcpy d a n =>
+    match eval d s with
+    | Some (VPtr RIn o1, s1) =>
+      match eval a s1 with
+      | Some (VPtr RIn o2, s2) =>
+        match eval n s2 with
+        | Some (VInt k, s3) =>
+          let len := Z.of_nat (List.length (inb s3)) in
+          if (0 <=? k) && (0 <=? o1) && (o1 + k <=? len) && (0 <=? o2) && (o2 + k <=? len) && ((o1 + k <=? o2) || (o2 + k <=? o1)) then
+            Some (VPtr RIn o1, {| vars := vars s3; inb := upd_range (Z.to_nat o1) (firstn (Z.to_nat k) (skipn (Z.to_nat o2) (inb s3))) (inb s3); outb := outb s3 |})
+          else None
+        | _ => None
+        end
+      | _ => None
+      end
+    | _ => None
+    end
+  | EStrlen p =>
+    match eval p s with
+    | Some (VPtr RIn o, s1) =>
+      if (0 <=? o) && (o <=? Z.of_nat (List.length (inb s1))) then
+        match strlen_l (skipn (Z.to_nat o) (inb s1)) with Some n => Some (VInt n, s1) | None => None end
+      else None
+    | _ => None
+    end
+  | EPostAdd x k =>
+    match lookup x (vars s) with
+    | Some (VPtr RIn o) =>
+      if (0 <=? o + k) && (o + k <=? Z.of_nat (List.length (inb s))) then
+        match set_var x (VPtr RIn (o + k)) s with Some s1 => Some (VPtr RIn o, s1) | None => None end
+      else None
+    | _ => None
+    end
+  | EPreAdd x k =>
+    match lookup x (vars s) with
+    | Some (VPtr RIn o) =>
+      if (0 <=? o + k) && (o + k <=? Z.of_nat (List.length (inb s))) then
+        match set_var x (VPtr RIn (o + k)) s with Some s1 => Some (VPtr RIn (o + k), s1) | None => None end
+      else None
     | _ => None
     end
   | ESeekCur a =>
